@@ -151,6 +151,7 @@ from ..index import (
     walk_local,
 )
 from ..report import construct_of
+from ..flowutil import param_origin, sole_expr_origin
 from .. import subscripts as _subs
 from .. import asserts as _asserts
 
@@ -484,8 +485,214 @@ def run(chk) -> None:
     _r05f(chk)
     chk.rule("R05g", "every assert in rules/ and utils/ is discharged by a fact known where it stands (dominating test, crawler guarantee, functional API, call sites, construction; sa/asserts.py), is a typing-only assertion on a parsed segment's pos_marker, or is reviewed into R05G_TABLE with the reason why its condition cannot be false; no segment class defines __bool__/__len__")
     _r05g(chk)
+    chk.rule("R05j", "no create_before / create_after fix in rules/ and utils/ re-creates an unfiltered positional span of tree siblings (a Segments.select(start_seg=.., stop_seg=..) without a type predicate, a slice or the whole of a node's .segments): such a span holds the Indent / Dedent metas lying between, whose raw is empty, and LintFix.__init__ asserts every segment of a create edit has a raw; spans passed through filter_meta / `not seg.is_meta` / a type predicate are accepted")
     chk.rule("R05h", "every LintFix.create_before / create_after / replace (and LintFix(<type>, ..) whose type is not provably 'delete') in rules/ and utils/ is built with an edit list that is known non-empty there (display, unconditional append on every path, dominating truthiness test, case split, non-empty returns, call-site contract; sa/editlists.py) or is a row of R05H_TABLE -- an empty create fix raises \"A create fix must have an edit\" inside the rule, an empty replace fix aborts the lint run in get_fix_slices / apply_fixes")
     _r05h(chk)
+    _r05j(chk)
+
+
+# ---- R05j -------------------------------------------------------------------
+_R05J_WRAP = ("list", "tuple", "sorted", "reversed", "cast")
+_R05J_CHILD_ATTRS = ("segments", "raw_segments")
+
+
+def _r05j_mentions_meta(e: ast.AST) -> bool:
+    """``sp.is_meta()`` un-negated somewhere in a predicate expression."""
+    for n in ast.walk(e):
+        if isinstance(n, ast.Call) and last_attr(n) == "is_meta":
+            p = getattr(n, "_parent", None)
+            if isinstance(p, ast.Call) and last_attr(p) == "not_":
+                continue
+            return True
+    return False
+
+
+def _r05j_spans(cfg, e: ast.AST, at, depth: int = 0, seen=None):
+    """Yield (node, what) for every unfiltered positional span of tree siblings that can reach ``e``."""
+    seen = seen if seen is not None else set()
+    if e is None or depth > 6:
+        return
+    if isinstance(e, ast.Name):
+        for o in origins(cfg, e, at):
+            if o.kind == "expr" and isinstance(o.expr, ast.AST) and id(o.expr) not in seen:
+                seen.add(id(o.expr))
+                yield from _r05j_spans(cfg, o.expr, o.stmt if o.stmt is not None else at, depth + 1, seen)
+        # in-place growth of a local list
+        f = cfg.func if hasattr(cfg, "func") else None
+        if f is not None:
+            for n in walk_local(f):
+                if isinstance(n, ast.Call) and isinstance(n.func, ast.Attribute) and isinstance(n.func.value, ast.Name) and n.func.value.id == e.id and n.func.attr in ("extend", "append", "insert") and n.args and id(n) not in seen:
+                    seen.add(id(n))
+                    yield from _r05j_spans(cfg, n.args[-1], cfg.stmt_of(n), depth + 1, seen)
+                if isinstance(n, ast.AugAssign) and isinstance(n.target, ast.Name) and n.target.id == e.id and id(n) not in seen:
+                    seen.add(id(n))
+                    yield from _r05j_spans(cfg, n.value, n, depth + 1, seen)
+        return
+    if isinstance(e, (ast.List, ast.Tuple, ast.Set)):
+        for x in e.elts:
+            # a single element is one chosen segment, not a span: only starred parts are sequences
+            if isinstance(x, ast.Starred):
+                yield from _r05j_spans(cfg, x.value, at, depth + 1, seen)
+        return
+    if isinstance(e, ast.BinOp) and isinstance(e.op, (ast.Add, ast.Mult)):
+        yield from _r05j_spans(cfg, e.left, at, depth + 1, seen)
+        yield from _r05j_spans(cfg, e.right, at, depth + 1, seen)
+        return
+    if isinstance(e, ast.IfExp):
+        yield from _r05j_spans(cfg, e.body, at, depth + 1, seen)
+        yield from _r05j_spans(cfg, e.orelse, at, depth + 1, seen)
+        return
+    if isinstance(e, ast.BoolOp):
+        for v in e.values:
+            yield from _r05j_spans(cfg, v, at, depth + 1, seen)
+        return
+    if isinstance(e, (ast.ListComp, ast.GeneratorExp)):
+        g = e.generators[0]
+        if isinstance(e.elt, ast.Name) and isinstance(g.target, ast.Name) and e.elt.id == g.target.id:
+            tests = [norm(t) for gg in e.generators for t in gg.ifs]
+            if any("is_meta" in t and t.startswith("not ") for t in tests) or any(".is_type(" in t or ".is_code" in t for t in tests):
+                return
+            yield from _r05j_spans(cfg, g.iter, at, depth + 1, seen)
+        return
+    if isinstance(e, ast.Subscript):
+        if isinstance(e.slice, ast.Slice):
+            base = e.value
+            if isinstance(base, ast.Attribute) and base.attr in _R05J_CHILD_ATTRS or (isinstance(base, ast.Call) and last_attr(base) == "children" and not base.args and not base.keywords):
+                yield e, f"the slice `{short(e, 60)}` of a node's children"
+                return
+            yield from _r05j_spans(cfg, base, at, depth + 1, seen)
+        return
+    if isinstance(e, ast.Call):
+        la = last_attr(e)
+        if la == "filter_meta":
+            keep = kwarg(e, "keep_meta") if kwarg(e, "keep_meta") is not None else (e.args[1] if len(e.args) > 1 else None)
+            if keep is None or (isinstance(keep, ast.Constant) and not keep.value):
+                return
+            yield e, f"`{short(e, 60)}`, which keeps the metas instead of dropping them"
+            return
+        if isinstance(e.func, ast.Name) and e.func.id in _R05J_WRAP and e.args:
+            yield from _r05j_spans(cfg, e.args[-1], at, depth + 1, seen)
+            return
+        if la == "fromkeys" and e.args:
+            yield from _r05j_spans(cfg, e.args[0], at, depth + 1, seen)
+            return
+        if la == "select" and isinstance(e.func, ast.Attribute):
+            kws = {k.arg: k.value for k in e.keywords if k.arg}
+            sel = kws.get("select_if") or (e.args[0] if e.args else None)
+            loop = kws.get("loop_while") or (e.args[1] if len(e.args) > 1 else None)
+            if sel is not None and not _r05j_mentions_meta(sel):
+                return  # chosen by a predicate (types / code / comments): judged with the predicate, not a blind span
+            if loop is not None and not _r05j_mentions_meta(loop) and sel is None:
+                return
+            if sel is None and loop is None and not ({"start_seg", "stop_seg"} & set(kws)):
+                # select() of everything: as good as its receiver
+                yield from _r05j_spans(cfg, e.func.value, at, depth + 1, seen)
+                return
+            why = "admits metas in its predicate" if (sel is not None or loop is not None) else "has no predicate"
+            # the receiver may already be meta-free
+            inner = list(_r05j_spans(cfg, e.func.value, at, depth + 1, seen))
+            recv = e.func.value
+            recv_e = sole_expr_origin(cfg, recv, at) if isinstance(recv, ast.Name) else recv
+            if isinstance(recv_e, ast.Call) and last_attr(recv_e) in ("filter_meta",):
+                return
+            if isinstance(recv_e, ast.Call) and last_attr(recv_e) in ("children", "select") and (recv_e.args or recv_e.keywords) and not any(_r05j_mentions_meta(a) for a in list(recv_e.args) + [k.value for k in recv_e.keywords]) and not inner:
+                return
+            yield e, f"the positional span `{short(e, 80)}` ({why}: everything between the two siblings, metas included)"
+            return
+        return
+    if isinstance(e, ast.Attribute) and e.attr in _R05J_CHILD_ATTRS:
+        v = e.value
+        if isinstance(v, ast.Name):
+            v = sole_expr_origin(cfg, v, at) or v
+        if isinstance(v, ast.Call) and isinstance(v.func, ast.Name) and v.func.id[:1].isupper():
+            for a in list(v.args) + [k.value for k in v.keywords]:
+                yield from _r05j_spans(cfg, a, at, depth + 1, seen)
+            return
+        if isinstance(v, (ast.Name, ast.Attribute, ast.Subscript)) and e.attr == "segments":
+            # all children of an existing node, taken whole
+            if isinstance(v, ast.Name) and param_origin(cfg, v, at) is None and not isinstance(sole_expr_origin(cfg, v, at), ast.AST):
+                return
+            yield e, f"all children `{short(e, 60)}` of an existing node (its indent / dedent metas included)"
+        return
+
+
+# (file, function, span text) -> (backing check, reason).  A span listed here is re-verified on every run by the
+# named grammar check; it is not a suppression by position.
+R05J_REVIEWED = {
+    ("rules/structure/ST04.py", "Rule_ST04._eval", "case1_to_delete.select(stop_seg=case1_to_delete.get(after_last_comment_index))"): (
+        "case_no_meta_between_when_and_else",
+        "a prefix of the siblings between the last WHEN clause and the ELSE clause of a case_expression: every dialect's CaseExpressionSegment puts its Indent before the WHEN "
+        "clauses and its Dedent after the ELSE clause, so only whitespace / newlines / comments lie in between",
+    ),
+}
+
+
+def _case_no_meta_between_when_and_else(repo) -> Optional[str]:
+    """None when no CaseExpressionSegment grammar has a meta between its WHEN clauses and its ELSE clause."""
+    n = 0
+    for m in repo.iter_modules("src/sqlfluff/dialects/"):
+        for c in ast.walk(m.tree):
+            if not (isinstance(c, ast.ClassDef) and c.name == "CaseExpressionSegment"):
+                continue
+            for seq in ast.walk(c):
+                if not (isinstance(seq, ast.Call) and last_attr(seq) == "Sequence"):
+                    continue
+                texts = [norm(a) for a in seq.args]
+                wi = [i for i, t in enumerate(texts) if "WhenClauseSegment" in t]
+                ei = [i for i, t in enumerate(texts) if "ElseClauseSegment" in t]
+                if not wi or not ei:
+                    continue
+                n += 1
+                for t in texts[max(wi) + 1 : min(ei)] + [texts[i] for i in wi + ei]:
+                    if any(k in t for k in ("Indent", "Dedent", "Conditional(")):
+                        return f"{m.relpath}: CaseExpressionSegment has `{t[:60]}` between / inside its WHEN .. ELSE elements"
+    if n < 2:
+        raise AnalysisError("R05j: no CaseExpressionSegment grammar with WHEN and ELSE clauses found in the dialects (anchor moved)")
+    return None
+
+
+_R05J_BACKING = {"case_no_meta_between_when_and_else": _case_no_meta_between_when_and_else}
+
+
+def _r05j(chk) -> None:
+    from .. import editlists as _edits
+
+    repo = chk.repo
+    init = repo.fn("src/sqlfluff/core/rules/fix.py", "LintFix.__init__")
+    anchor = [n for n in walk_local(init) if isinstance(n, ast.Assert) and "seg.raw" in norm(n.test) and "self.edit" in norm(n.test)]
+    if not anchor:
+        raise AnalysisError("R05j: LintFix.__init__ no longer asserts that every segment of a create edit has a raw (anchor refactored: re-read what a meta in an edit does)")
+    n = flagged = 0
+    for s in _edits.sites(repo):
+        if s.arg is None or not (set(s.types) & {"create_before", "create_after", "<computed>"}):
+            continue
+        n += 1
+        cfg = cfg_of(s.f)
+        st = cfg.stmt_of(s.call)
+        spans = list(_r05j_spans(cfg, s.arg, st))
+        q = qualname(s.f)
+        for node, what in spans:
+            key = (s.m.relpath.replace("src/sqlfluff/", "", 1), q, norm(node))
+            rev = R05J_REVIEWED.get(key)
+            if rev is not None:
+                bad = _R05J_BACKING[rev[0]](repo)
+                if bad is None:
+                    chk.count("R05j.reviewed")
+                    chk.ok("R05j", f"{s.m.relpath}::{q}", f"span `{short(node, 50)}` [grammar: {rev[0]}]")
+                    continue
+                what = what + f"; the grammar fact it was reviewed under no longer holds ({bad})"
+            flagged += 1
+            chk.fail(
+                "R05j", s.call,
+                f"{q} builds a {'/'.join(s.types)} fix whose edit takes {what}: an Indent / Dedent among them has an empty raw and LintFix.__init__ "
+                "raises \"Invalid edit found\" inside the rule ('Unexpected exception' instead of its result); filter the metas out (filter_meta / `not seg.is_meta`) before the segments are re-created",
+                detail=f"{q}: create edit takes an unfiltered span of tree siblings: {short(node, 60)}",
+            )
+        if not spans:
+            chk.ok("R05j", f"{s.m.relpath}::{q}", f"create edit `{short(s.arg, 60)}` takes no unfiltered span of siblings")
+    chk.count("R05j.create_sites", n)
+    chk.count("R05j.flagged", flagged)
+    chk.floor("R05j.create_sites", 25)
 
 
 # ---- R05h -------------------------------------------------------------------
@@ -1609,6 +1816,24 @@ LT07 = "src/sqlfluff/rules/layout/LT07.py"
 
 VARIANTS = [
     Variant(
+        "lt09-moved-span-keeps-its-metas", "src/sqlfluff/rules/layout/LT09.py",
+        "                    moved_segments = [\n                        seg for seg in move_after_select_clause if not seg.is_meta\n                    ]\n",
+        "                    moved_segments = list(move_after_select_clause)\n",
+        "R05j", "Rule_LT09._eval_single_select_target_element", "the defect fixed in 12ae6b1: the Indent after DISTINCT is re-created, 'Invalid edit found'",
+    ),
+    Variant(
+        "st07-edit-takes-all-children-of-the-using-bracket", "src/sqlfluff/rules/structure/ST07.py",
+        "        ] + _generate_join_conditions(\n            table_a.ref_str,\n            table_b.ref_str,\n            using_cols,\n        )\n",
+        "        ] + _generate_join_conditions(\n            table_a.ref_str,\n            table_b.ref_str,\n            using_cols,\n        ) + list(segment.segments[2:])\n",
+        "R05j", "Rule_ST07._eval", "a slice of a node's children re-created: whatever metas lie there have no raw",
+    ),
+    Variant(
+        "quiet-lt09-moved-span-filtered-with-filter-meta", "src/sqlfluff/rules/layout/LT09.py",
+        "                    moved_segments = [\n                        seg for seg in move_after_select_clause if not seg.is_meta\n                    ]\n",
+        "                    moved_segments = list(self.filter_meta(move_after_select_clause))\n",
+        "QUIET", None, "the same filter through BaseRule.filter_meta",
+    ),
+    Variant(
         "am06-array-branch-drops-the-memory", "src/sqlfluff/rules/ambiguous/AM06.py",
         "            return LintResult(memory=context.memory)\n",
         "            return LintResult()\n",
@@ -1950,8 +2175,8 @@ VARIANTS = [
     # ---- R05h ---------------------------------------------------------------
     Variant(
         "lt09-leftover-guard-tests-none-instead-of-emptiness", "src/sqlfluff/rules/layout/LT09.py",
-        "                    if move_after_select_clause or add_newline:\n",
-        "                    if move_after_select_clause is not None or add_newline:\n",
+        "                    if moved_segments or add_newline:\n",
+        "                    if moved_segments is not None or add_newline:\n",
         "R05h", "Rule_LT09._eval_single_select_target_element", "select() returns an empty Segments, never None: a create_after fix with nothing to create",
     ),
     Variant(
@@ -1992,8 +2217,8 @@ VARIANTS = [
     ),
     Variant(
         "quiet-lt09-list-call-as-star-display", "src/sqlfluff/rules/layout/LT09.py",
-        "+ list(move_after_select_clause),",
-        "+ [*move_after_select_clause],",
+        "+ moved_segments,",
+        "+ [*moved_segments],",
         "QUIET", None, "R05h: list(x) <-> [*x] under the disjunction",
     ),
     Variant(
@@ -2004,8 +2229,8 @@ VARIANTS = [
     ),
     Variant(
         "quiet-lt09-disjuncts-swapped-emptiness-by-len", "src/sqlfluff/rules/layout/LT09.py",
-        "                    if move_after_select_clause or add_newline:\n",
-        "                    if add_newline or len(move_after_select_clause) > 0:\n",
+        "                    if moved_segments or add_newline:\n",
+        "                    if add_newline or len(moved_segments) > 0:\n",
         "QUIET", None, "R05h: disjuncts swapped, emptiness spelled with len",
     ),
 ]
